@@ -54,6 +54,7 @@ PSY_INTERNAL:
 private:
     SemanticModel* semaModel_;
     const Type* ty_;
+    const Type* declTy_;
     const Type* ptrdiffTy_;
     const Type* sizeTy_;
     const Type* maxAlignTy_;
